@@ -76,15 +76,82 @@ func (o *Obligation) script() string {
 	if vc.usedExtQ {
 		sb.WriteString("(assert (forall ((a Str) (b Str)) (! (or (= a b) (not (= (gs.len a) (gs.len b))) (and (<= 0 (gs.diff a b)) (< (gs.diff a b) (gs.len a)) (not (= (gs.at a (gs.diff a b)) (gs.at b (gs.diff a b)))))) :pattern ((gs.diff a b)))))\n")
 	}
+	// cone of influence: only definitions, declarations and facts connected to the goal and path condition
+	need := map[string]bool{}
+	var work []string
+	addSyms := func(t string) {
+		for _, sym := range symbolsOf(t) {
+			if !need[sym] {
+				need[sym] = true
+				work = append(work, sym)
+			}
+		}
+	}
+	addSyms(o.PC)
+	addSyms(o.Goal)
+	defs := vc.defs[:o.DefsEnd]
+	vc.indexDefs()
+	for len(work) > 0 {
+		sym := work[len(work)-1]
+		work = work[:len(work)-1]
+		if i, ok := vc.defIndex[sym]; ok && i < o.DefsEnd {
+			addSyms(defs[i])
+		}
+	}
+	// facts: keep those that mention a needed symbol (iterate to a fixed point, facts may pull in more symbols)
+	keepFact := map[int]bool{}
+	for changed := true; changed; {
+		changed = false
+		for i, d := range defs {
+			if keepFact[i] || !strings.HasPrefix(d, "(assert") {
+				continue
+			}
+			syms := symbolsOf(d)
+			hit := false
+			for _, sym := range syms {
+				if need[sym] && !builtinSym[sym] {
+					hit = true
+					break
+				}
+			}
+			if hit {
+				keepFact[i] = true
+				changed = true
+				before := len(need)
+				addSyms(d)
+				for len(work) > 0 {
+					sym := work[len(work)-1]
+					work = work[:len(work)-1]
+					if j, ok := vc.defIndex[sym]; ok && j < o.DefsEnd {
+						addSyms(defs[j])
+					}
+				}
+				_ = before
+			}
+		}
+	}
+	for _, d := range vc.axiomDefs {
+		addSyms(d)
+	}
 	for _, d := range vc.decls {
-		sb.WriteString(d)
-		sb.WriteByte('\n')
+		n := declName(d)
+		if n == "" || need[n] {
+			sb.WriteString(d)
+			sb.WriteByte('\n')
+		}
 	}
 	for _, d := range vc.axiomDefs {
 		sb.WriteString(d)
 		sb.WriteByte('\n')
 	}
-	for _, d := range vc.defs[:o.DefsEnd] {
+	for i, d := range defs {
+		if strings.HasPrefix(d, "(define-fun ") {
+			if !need[declName(d)] {
+				continue
+			}
+		} else if strings.HasPrefix(d, "(assert") && !keepFact[i] {
+			continue
+		}
 		sb.WriteString(d)
 		sb.WriteByte('\n')
 	}
@@ -93,6 +160,65 @@ func (o *Obligation) script() string {
 		sb.WriteString("(assert (not " + o.Goal + "))\n")
 	}
 	return sb.String()
+}
+
+var builtinSym = map[string]bool{"and": true, "or": true, "not": true, "ite": true, "select": true, "store": true, "forall": true, "exists": true,
+	"true": true, "false": true, "Int": true, "Bool": true, "Str": true, "Array": true, "assert": true, "mod": true, "div": true,
+	"gs.len": true, "gs.at": true, "gs.empty": true, "gs.diff": true, "gs.cat": true, "gs.sub": true, "gs.unit": true, "gs.ofarr": true,
+	"s.base": true, "s.off": true, "s.len": true, "s.cap": true, "mkslice": true, "i.tag": true, "i.pay": true, "mkiface": true, "as": true, "const": true,
+	"Slice": true, "Iface": true, "define-fun": true, "declare-const": true, "declare-fun": true, "pattern": true, "Real": true, "to_real": true, "xor": true}
+
+func isSymChar(c byte) bool {
+	return c >= 'a' && c <= 'z' || c >= 'A' && c <= 'Z' || c >= '0' && c <= '9' || c == '_' || c == '.' || c == '$' || c == '!' || c == '@' || c == '~' || c == '-' && false
+}
+
+// symbolsOf lists the identifier-like tokens of an SMT term.
+func symbolsOf(t string) []string {
+	var out []string
+	i := 0
+	for i < len(t) {
+		if isSymChar(t[i]) {
+			j := i
+			for j < len(t) && isSymChar(t[j]) {
+				j++
+			}
+			tok := t[i:j]
+			if !(tok[0] >= '0' && tok[0] <= '9') {
+				out = append(out, tok)
+			}
+			i = j
+		} else {
+			i++
+		}
+	}
+	return out
+}
+
+func declName(d string) string {
+	for _, p := range []string{"(declare-const ", "(declare-fun ", "(define-fun "} {
+		if strings.HasPrefix(d, p) {
+			r := d[len(p):]
+			if i := strings.IndexAny(r, " )"); i >= 0 {
+				return r[:i]
+			}
+		}
+	}
+	return ""
+}
+
+func (vc *FnVC) indexDefs() {
+	vc.idxMu.Lock()
+	defer vc.idxMu.Unlock()
+	if vc.defIndex != nil && vc.defIndexed == len(vc.defs) {
+		return
+	}
+	vc.defIndex = map[string]int{}
+	for i, d := range vc.defs {
+		if strings.HasPrefix(d, "(define-fun ") {
+			vc.defIndex[declName(d)] = i
+		}
+	}
+	vc.defIndexed = len(vc.defs)
 }
 
 type unitResult struct {
@@ -140,7 +266,7 @@ func (g *Global) runUnitOpts(u *Unit, timeout int, workers chan struct{}, ro run
 	if ro.storedInv != nil {
 		vc.houdiniByOrd = clausesFromTexts(ro.storedInv)
 		usedStored = true
-	} else if !u.Opts["noinfer"] {
+	} else if u.Opts["sweep"] || u.Opts["infer"] {
 		vc.houdiniByOrd = g.inferInvariants(fn, u, workers)
 	}
 	func() {
